@@ -26,7 +26,9 @@ RULE = ('(crash) for every environment of the alphabet (1-3 tasks; statuses WAIT
         'must be absent, every intact DONE task with an output directory must come back equal to what was written and no other task '
         'may be DONE; (real write path) for 5 pairs (entry on disk, entry being written) the new entry is written by the real write_env in a '
         'forked child limited to k bytes of file size, for every k: read_env must give nothing, the old entry or the complete new entry, never '
-        'a mixture; (history) BFS to depth 3 over {write_env(E_i), crash during the write of task k of E_i at byte b, delete file}: '
+        'a mixture; (run command) BFS over histories of the real RunCommand.execute on a 3-task job file (4 sets of failing tasks) with '
+        'truncation / deletion of a task file between runs: read_env gives exactly the DONE entries of the environment the run ended with; '
+        '(history) BFS to depth 3 over {write_env(E_i), crash during the write of task k of E_i at byte b, delete file}: '
         'state = bytes on disk; after each step read_env equals the reference dictionary of fully written DONE entries; non-trivial = '
         'crash states with 0 < b < size, and histories with at least one crash or overwrite')
 ASSUMPTIONS = ['crash model: open(path, "wb") truncates, then a prefix of the new content reaches the disk (optionally with a zero-filled tail)',
